@@ -1967,8 +1967,10 @@ class Cluster(object):
 
         reconnector = _HostReconnectionHandler(
             host, conn_factory, is_host_addition, self.on_add, self.on_up,
-            self.scheduler, schedule, host.get_and_set_reconnection_handler,
-            new_handler=None)
+            self.scheduler, schedule, host.clear_reconnection_handler)
+        # when it is done it takes itself off the host - and only itself: handling the
+        # reconnection (on_up) may already have put a newer handler in its place
+        reconnector.callback_args = (reconnector,)
 
         old_reconnector = host.get_and_set_reconnection_handler(reconnector)
         if old_reconnector:
